@@ -278,6 +278,33 @@ RunPlan generate(uint64_t seed, const std::string& lens, const std::string& shap
 	if (is("C16") && r.chance(0.12)) nOps = r.range(280, 560);     // long tick runs (request + update pairs): activity counters saturate
 	const int longRun = nOps > 100;
 	if (manual) { Op o; o.kind = OP_ENTER; g.decorate(o); p.ops.push_back(o); }
+	// directed prefix (C06): a plan-owning region nested in another; the inner plan runs empty while the outer one still waits for a state inside the inner
+	// region. Everything after it is the usual random mix.
+	if (is("C06") && plans && r.chance(0.12)) {
+		const Shape& sh = g.sh;
+		std::vector<std::pair<int,int>> nests;   // (outer head, inner head): inner is a composite-style region with two plain sub-states, directly below a composite-style outer
+		for (int in = 1; in < sh.n; ++in) {
+			if (!sh.isCompo(in) || sh.st[size_t(in)].headless) continue;
+			const int out = sh.st[size_t(in)].parent;
+			if (out < 0 || !sh.isCompo(out)) continue;
+			int leaves = 0; for (int c : sh.kids[size_t(in)]) if (!sh.isRegion(c)) ++leaves;
+			if (leaves >= 2) nests.emplace_back(out, in);
+		}
+		if (!nests.empty()) {
+			const auto pr = nests[r.below(uint32_t(nests.size()))];
+			std::vector<int> lv; for (int c : sh.kids[size_t(pr.second)]) if (!sh.isRegion(c)) lv.push_back(c);
+			const int a = lv[0], b = lv[1];
+			std::vector<int> dests; for (int c : sh.kids[size_t(pr.first)]) dests.push_back(c);
+			const int d = dests[r.below(uint32_t(dests.size()))];
+			auto push = [&](Op o) { g.decorate(o); p.ops.push_back(o); };
+			auto selfSucceed = [&](int state) { Op u; u.kind = OP_UPDATE; g.decorate(u); u.card.clear(); CardEntry e; e.state = int16_t(state); e.method = M_UPDATE; e.occurrence = 0; Action ac; ac.type = A_SUCCEED; ac.a = -1; e.actions.push_back(ac); u.card.push_back(e); p.ops.push_back(u); };
+			{ Op o; o.kind = OP_IMMEDIATE; o.a = K_CHANGE; o.b = int16_t(a); push(o); p.ops.back().card.clear(); }
+			{ Op o; o.kind = OP_PLAN_APPEND; o.a = int16_t(sh.st[size_t(pr.second)].region); o.b = K_CHANGE; o.c = int16_t(a); o.d = int16_t(b); push(o); }
+			{ Op o; o.kind = OP_PLAN_APPEND; o.a = int16_t(sh.st[size_t(pr.first)].region); o.b = K_CHANGE; o.c = int16_t(b); o.d = int16_t(d); push(o); }
+			selfSucceed(a);
+			selfSucceed(b);
+		}
+	}
 	for (int k = 0; k < nOps; ++k) {
 		Op o;
 		o.kind = uint8_t(longRun && r.chance(0.85) ? (k % 2 ? OP_UPDATE : OP_REQUEST) : r.weighted(w));
